@@ -57,6 +57,7 @@ typedef struct TcpEngine {
 
 /* ---------------- epoll ---------------- */
 #define EPOLLIN 0x001u
+#define EPOLLPRI 0x002u
 #define EPOLLOUT 0x004u
 #define EPOLLERR 0x008u
 #define EPOLLHUP 0x010u
